@@ -93,19 +93,19 @@ def instances():
         L.append(I(name, list(props), call, be=be, tier=tier, unwind=max(n, n2 or 0, 8) + 2,
                    unwindset=uw(n, items=items, n2=n2), **kw))
     C6 = ("C06", "C02", "C18")
-    T("c06_find_n4", "c06::find::<4>(SYM, SYM)", 4, props=C6)
-    T("c06_find_n8", "c06::find::<8>(SYM, SYM)", 8, props=C6)
+    T("c06_find_n4", "c06::find::<4>(SYM, SYM)", 4, props=C6, share_quick=('C18', 'C02'))
+    T("c06_find_n8", "c06::find::<8>(SYM, SYM)", 8, props=C6, share_quick=('C18', 'C02'))
     T("c06_find_n16", "c06::find::<16>(SYM, SYM)", 16, be=G8, props=C6)
     T("c06_find_n16s", "c06::find::<16>(SYM, SYM)", 16, be=S16, tier="thorough", props=C6)
     T("c06_find_n32", "c06::find::<32>(SYM, SYM)", 32, tier="thorough", props=C6)
-    T("c06_insert_n4", "c06::insert::<4, 4>(2, 0)", 4, items=2, props=C6)
+    T("c06_insert_n4", "c06::insert::<4, 4>(2, 0)", 4, items=2, props=C6, share_quick=('C18', 'C02'))
     T("c06_insert_n4_grow", "c06::insert_full::<4, 8>(3, 0)", 4, n2=8, items=3, props=C6, covers="some")
     T("c06_insert_n8", "c06::insert::<8, 8>(4, 0)", 8, items=4, props=C6)
     T("c06_insert_n8_grow", "c06::insert_full::<8, 16>(7, 0)", 8, n2=16, items=7, props=C6, tier="thorough", timeout=7200, covers="some")
     T("c06_insert_n16", "c06::insert::<16, 16>(5, 3)", 16, be=G8, items=5, props=C6)
     T("c06_insert_n16_grow", "c06::insert_full::<16, 32>(8, 6)", 16, be=G8, n2=32, items=8, props=C6, tier="thorough", timeout=3600)
-    T("c06_remove_n4", "c06::remove_reinsert::<4>(SYM, SYM, false)", 4, props=C6, covers="some")
-    T("c06_remove_n8", "c06::remove_reinsert::<8>(SYM, SYM, false)", 8, props=C6, covers="some")
+    T("c06_remove_n4", "c06::remove_reinsert::<4>(SYM, SYM, false)", 4, props=C6, covers="some", share_quick=('C02',))
+    T("c06_remove_n8", "c06::remove_reinsert::<8>(SYM, SYM, false)", 8, props=C6, covers="some", share_quick=('C18', 'C02'))
     T("c06_remove_reinsert_n8", "c06::remove_reinsert::<8>(SYM, SYM, true)", 8, props=C6, covers="some")
     T("c06_remove_n16", "c06::remove_reinsert::<16>(SYM, SYM, false)", 16, be=G8, props=C6, timeout=1800)
     T("c06_remove_reinsert_n16", "c06::remove_reinsert::<16>(SYM, SYM, true)", 16, be=G8, props=C6, timeout=1800)
@@ -129,16 +129,17 @@ def instances():
         T("c06_base_cap%d" % c, "c06::base_case::<%d>()" % c, 32, tier="quick" if c in (0, 3, 14) else "thorough", props=("C06", "C01", "C08"))
     # ------------------------------------------------------------------ C09 iterators
     C9 = ("C09", "C02", "C18")
-    for n, be, tier in ((4, BOTH, "quick"), (8, G8, "quick"), (16, BOTH, "quick"), (32, S16, "quick"), (32, G8, "thorough"), (64, S16, "thorough")):
+    for n, be, tier in ((4, BOTH, "quick"), (8, G8, "quick"), (16, G8, "quick"), (16, S16, "thorough"), (32, S16, "thorough"), (32, G8, "thorough"), (64, S16, "thorough")):
         sfx = "" if be == BOTH else ("_" + be[0])
         for mode, mn in ((0, "next"), (1, "fold"), (2, "clone")):
-            T("c09_iter_%s_n%d%s" % (mn, n, sfx), "c09::table_iter::<%d>(%d)" % (n, mode), n, be=be, tier=tier, props=C9, covers="some", timeout=1500)
+            T("c09_iter_%s_n%d%s" % (mn, n, sfx), "c09::table_iter::<%d>(%d)" % (n, mode), n, be=be, tier=tier, props=C9, covers="some", timeout=1500 if tier == "quick" else 14400, mem_gb=14 if tier == "quick" else 30,
+              share_quick=("C18", "C02") if (n, mode) in ((4, 0), (4, 1)) else ())
     T("c09_iter_mut_n8", "c09::table_iter_mut::<8>()", 8, props=C9)
     T("c09_iter_mut_n16", "c09::table_iter_mut::<16>()", 16, props=C9, be=G8)
-    T("c09_into_iter_n8", "c09::table_into_iter::<8>()", 8, props=C9 + ("C03",))
+    T("c09_into_iter_n8", "c09::table_into_iter::<8>()", 8, props=C9 + ("C03",), share_quick=("C02", "C03"))
     T("c09_into_iter_n16", "c09::table_into_iter::<16>()", 16, props=C9 + ("C03",), be=G8)
-    T("c09_drain_n8", "c09::table_drain::<8>()", 8, props=C9 + ("C10",))
-    T("c09_drain_n16", "c09::table_drain::<16>()", 16, props=C9 + ("C10",), be=G8)
+    T("c09_drain_n8", "c09::table_drain::<8>()", 8, props=C9 + ("C10",), share_quick=("C10", "C02", "C08"))
+    T("c09_drain_n16", "c09::table_drain::<16>()", 16, props=C9 + ("C10",), be=G8, share_quick=("C10",))
     T("c09_defaults_empty", "c09::defaults_empty()", 4, props=C9, be=ANY)
     for w, wn in enumerate(("iter", "keys", "values", "iter_mut", "values_mut", "into_iter", "into_keys", "into_values", "drain")):
         T("c09_map_%s_n8" % wn, "c09::map_iters::<8>(%d)" % w, 8, props=C9, be=G8 if w not in (0, 5) else BOTH)
@@ -146,7 +147,7 @@ def instances():
         T("c09_set_%s_n8" % wn, "c09::set_iters::<8>(%d)" % w, 8, props=C9, be=G8)
     # ------------------------------------------------------------------ C01 HashMap steps
     C1 = ("C01", "C18")
-    T("c01_lookup_n8", "c01::lookup::<8>()", 8, props=C1)
+    T("c01_lookup_n8", "c01::lookup::<8>()", 8, props=C1, share_quick=('C18',))
     T("c01_lookup_n16", "c01::lookup::<16>()", 16, be=G8, props=C1)
     T("c01_lookup_n4", "c01::lookup::<4>()", 4, be=G8, props=C1)
     T("c01_insert_n4", "c01::insert::<4, 4>(2, 0)", 4, items=2, be=G8, props=C1)
@@ -158,9 +159,9 @@ def instances():
     T("c01_remove_n16", "c01::remove::<16>(false)", 16, be=G8, props=C1, timeout=1800)
     T("c01_try_insert_n8", "c01::try_insert::<8, 8>(4, 0)", 8, items=4, be=G8, props=C1)
     for form, fn_ in enumerate(("or_insert", "and_modify", "entry_ref", "occ_vac_insert", "or_insert_with_key", "or_default")):
-        T("c01_entry_%s_n8" % fn_, "c01::entry::<8, 8>(4, 0, %d)" % form, 8, items=4, be=G8 if form else BOTH, props=("C01", "C14", "C18"))
-    T("c01_entry_or_insert_n4_full", "c01::entry::<4, 8>(3, 0, 0)", 4, n2=8, items=3, be=G8, props=("C01", "C14"), covers="some")
-    T("c01_retain_n8", "c01::retain::<8>()", 8, props=("C01", "C10", "C18"))
+        T("c01_entry_%s_n8" % fn_, "c01::entry::<8, 8>(4, 0, %d)" % form, 8, items=4, be=G8 if form else BOTH, props=("C01", "C14", "C18"), share_quick=("C14",) if form in (0, 2, 3) else ())
+    T("c01_entry_or_insert_n4_full", "c01::entry::<4, 8>(3, 0, 0)", 4, n2=8, items=3, be=G8, props=("C01", "C14"), covers="some", share_quick=("C14",))
+    T("c01_retain_n8", "c01::retain::<8>()", 8, props=("C01", "C10", "C18"), share_quick=('C18', 'C10'))
     T("c01_retain_n16", "c01::retain::<16>()", 16, be=G8, props=("C01", "C10"), timeout=1800)
     T("c01_clear_n8", "c01::clear_reserve_shrink::<8, 8>(SYM, SYM, 0, 0)", 8, be=G8, props=C1)
     T("c01_reserve_n8", "c01::clear_reserve_shrink::<8, 16>(2, 0, 1, 6)", 8, n2=16, items=2, be=G8, props=C1)
@@ -177,7 +178,25 @@ def instances():
     T("c10_extract_if_n16", "c10::table_extract_if::<16>()", 16, be=G8, props=C10, timeout=1800, covers="some")
     T("c10_map_extract_if_n8", "c10::map_extract_if::<8>()", 8, be=G8, props=C10)
     for w, wn in enumerate(("retain", "extract_if", "drain")):
-        T("c10_set_%s_n8" % wn, "c10::set_ops::<8>(%d)" % w, 8, be=G8, props=("C10", "C07"))
+        T("c10_set_%s_n8" % wn, "c10::set_ops::<8>(%d)" % w, 8, be=G8, props=("C10", "C07"), share_quick=("C07",) if w == 0 else ())
+    # ------------------------------------------------------------------ C02 layouts, ZST, leaked guards
+    OPS = ("insert", "remove", "iterate", "drain", "clone", "into_iter", "insert_grow", "retain", "shrink")
+    for ty, tn, quick_ops in (("u16", "u16", (0, 6)), ("u64", "u64", (1, 4)), ("[u64; 3]", "u64x3", (0, 3, 6)), ("sym::Al32", "al32", (0, 1, 2, 6)), ("sym::Big", "big200", (0, 5, 6))):
+        for op, on in enumerate(OPS):
+            n, n2, items = (4, 8, 3) if op == 6 else (4, 4, 2)
+            if ty == "u16" and True:
+                pass
+            T("c02_%s_%s_n4" % (tn, on), "c02::layout_ops::<%s, %d, %d>(%d, %d)" % (ty, n, n2, items, op), n, n2=n2 if op in (6, 8) else None, items=items,
+              be=G8, props=("C02",), tier="quick" if op in quick_ops else "thorough", bounds="element type %s, N=4" % ty)
+    T("c02_al32_insert_n4_s16", "c02::layout_ops::<sym::Al32, 4, 4>(2, 0)", 4, items=2, be=S16, props=("C02",))
+    T("c02_u64x3_remove_n8_s16", "c02::layout_ops::<[u64; 3], 8, 8>(4, 1)", 8, items=4, be=S16, props=("C02",))
+    for op, on in enumerate(("iterate", "remove", "retain", "extract_if", "drain", "insert_into_iter")):
+        T("c02_zst_%s_n8" % on, "c02::zst_ops::<8>(%d)" % op, 8, be=G8, props=("C02", "C10" if op in (2, 3, 4) else "C09"))
+    T("c02_zst_remove_n16_s16", "c02::zst_ops::<16>(1)", 16, be=S16, props=("C02",))
+    T("c02_zst_iterate_n16_s16", "c02::zst_ops::<16>(0)", 16, be=S16, props=("C02", "C09"))
+    for w, wn in enumerate(("iter_mut", "drain", "extract_if", "into_iter", "occupied_entry", "vacant_entry")):
+        T("c02_leak_%s_n8" % wn, "c02::leaked_guard::<8>(%d)" % w, 8, be=G8, props=("C02",))
+    T("c02_leak_drain_n16", "c02::leaked_guard::<16>(1)", 16, be=G8, props=("C02",), tier="thorough")
     # ------------------------------------------------------------------ C03 drop / allocation ledger
     for op, on in enumerate(("drop", "remove", "clear", "retain", "extract_if", "drain", "into_iter", "shrink0", "remove_reinsert")):
         if on == "shrink0":
@@ -234,6 +253,9 @@ def instances():
     T("c04_hasher_grow_nodrop_n8", "c04::hasher_panic_nodrop::<8, 16>(0b00010010, 0, 6, 1)", 8, n2=16, items=2, props=("C04", "C02"))
     T("c04_hasher_grow_drop_n8", "c04::hasher_panic_drop::<8, 16>(0b00100100, 0, 6, 0)", 8, n2=16, items=2, props=("C04", "C03"), be=G8)
     T("c04_hasher_shrink_drop_n8", "c04::hasher_panic_drop::<8, 4>(0b00100100, 0, 0, 0)", 8, n2=4, items=2, props=("C04",), be=G8, covers="some")
+    T("c04_rehash_hook_nodrop_n8", "c04::rehash_hook_panic::<8>(3, false)", 8, items=3, be=G8, props=("C04", "C02"), timeout=1800)
+    T("c04_rehash_hook_drop_n8", "c04::rehash_hook_panic::<8>(3, true)", 8, items=3, be=G8, props=("C04", "C03"), timeout=1800)
+    T("c04_rehash_hook_nodrop_n4", "c04::rehash_hook_panic::<4>(2, false)", 4, items=2, props=("C04", "C02"), timeout=1800)
     for (nt, ns) in ((8, 8), (8, 4), (4, 8), (8, 1)):
         T("c04_clone_from_panic_%d_%d" % (nt, ns), "c04::clone_from_panic::<%d, %d>()" % (nt, ns), max(nt, ns), be=G8, props=("C04", "C11", "C03"), covers="some" if ns == 1 else "all")
     for w, wn in enumerate(("clear", "drop", "drain", "into_iter", "retain", "shrink0")):
@@ -299,6 +321,28 @@ def instances():
     T("c20_set_in_place_n8_2", "c20::set_in_place::<8, 2>()", 8, be=G8, props=("C20",), covers="some", timeout=1800, tier="thorough")
     T("c20_serialize_map_n8", "c20::serialize_emits_all::<8>(false)", 8, props=("C20",))
     T("c20_serialize_set_n8", "c20::serialize_emits_all::<8>(true)", 8, be=G8, props=("C20",))
+    # ------------------------------------------------------------------ evidence shared between properties (quick tier)
+    SHARE = {
+        "C13": ["c08_no_alloc_insert_n4", "c08_no_alloc_insert_n16", "c17_probe_step_all", "c17_probe_visits_g8", "c06_remove_n16",
+                "c06_find_n16", "c06_insert_n4_grow", "c06_insert_n16", "c05_find_n16"],
+        "C08": ["c17_cap_to_buckets_all", "c17_cap_to_buckets_monotone", "c06_reserve_n8_grow", "c06_clear_n8", "c06_base_cap0", "c06_base_cap3",
+                "c06_base_cap14", "c03_grow_n8", "c03_shrink_n8", "c03_no_block_when_unused", "c06_shrink_n8_to4"],
+        "C12": ["c17_layout_all"],
+        "C03": ["c04_clone_from_panic_8_4", "c11_clone_n8", "c11_clone_from_8_4", "c19_par_drain_producer_n8"],
+        "C02": ["c04_hasher_grow_nodrop_n8", "c05_insert_n8", "c05_remove_n8", "c03_drop_n8", "c17_table_layout_types"],
+        "C11": ["c07_predicates_n4_n4", "c04_clone_from_panic_8_8"],
+        "C01": ["c14_map_occ_remove_n8", "c06_base_cap3"],
+        "C05": ["c15_table_sloppy_n8_k2"],
+        "C14": ["c04_replace_entry_validity_n8", "c07_elem_entry_n8"],
+        "C04": [],
+    }
+    byname = {i["name"]: i for i in L}
+    for prop, names in SHARE.items():
+        for n in names:
+            i = byname[n]
+            if prop not in i["props"]:
+                i["props"].append(prop)
+            i["share_quick"] = tuple(i.get("share_quick", ())) + (prop,)
     return L
 
 
